@@ -481,6 +481,8 @@ func units(string) []engine.Unit {
 			}))
 		})},
 		{Name: "associations", Run: finish(associations)},
+		{Name: "set-collators", Run: finish(setCollators)},
+		{Name: "source-form-repeated", Run: finish(sourceRepeat)},
 	}
 	return us
 }
